@@ -4,7 +4,8 @@
 
      response / wf_response   an abstract HTTP/1.x response (any number of 1xx messages in front; status
                               line; header fields with the optional white space the server put around
-                              each value; framing = none | Content-Length | chunked with the server's
+                              each value; framing = none | Content-Length with the server's spelling of
+                              the length (1*DIGIT, leading zeros allowed) | chunked with the server's
                               spelling of every chunk size and extension | close; body) and the
                               boolean predicate saying it is well formed;
      render                   its serialisation;   expect = what the callback must receive.
@@ -76,10 +77,14 @@ Theorem C09_headers_roundtrip :
 Proof. exact headers_roundtrip. Qed.
 Print Assumptions C09_headers_roundtrip.
 
-(* M3: the framings, whole response in one read into a fresh reader *)
+(* M3: the framings, whole response in one read into a fresh reader.
+   Content-Length: [ds] is the length as the server wrote it - any non-empty string of decimal digits
+   whose value is the body length, leading zeros included (wf_response, via HttpSpec.wf_clen); the
+   header handed to the caller carries exactly that text.  Example ex_clen_leading_zeros: "010" is a
+   ten-byte body, "0019" nineteen bytes. *)
 Theorem C09_clen_roundtrip :
-  forall stale limit ishead r pos,
-    wf_response ishead r = true -> p_framing r = FrClen pos -> lenN (p_body r) <= limit -> limit < two64 ->
+  forall stale limit ishead r pos ds,
+    wf_response ishead r = true -> p_framing r = FrClen pos ds -> lenN (p_body r) <= limit -> limit < two64 ->
     forall e,
     http_response_run repo_terminated stale init_rdr limit ishead (mkNet [render r] e)
     = Ok (Done [CbResp (Z.of_N (m_status (p_final r))) (map nv (final_fields r))
